@@ -6,9 +6,9 @@ package main
 //   wall = nanoseconds within the second, ext = seconds since 0001-01-01 UTC,
 //   loc  = nil for UTC, otherwise a *time.Location object carrying a fixed
 //   offset term.
-// time.Date is exact up to one uninterpreted function: days(y, m), the number
-// of days from 0001-01-01 to the first day of month m of year y (concrete
-// arguments are computed natively).
+// time.Date and the calendar accessors (Date, Year, Month, Day, YearDay,
+// Weekday, Clock, ...) are exact: timecal.go computes the proleptic Gregorian
+// calendar as bit-vector terms for years within +-1,000,000.
 
 import (
 	"go/types"
@@ -42,6 +42,7 @@ func registerTimeIntrinsics() {
 	intrinsicTable["(time.Time).Zone"] = inTimeZone
 	intrinsicTable["(time.Time).Location"] = inTimeLocation
 	intrinsicTable["(time.Time).Format"] = inTimeFormat
+	registerCalendarIntrinsics()
 }
 
 func (r *Run) utcLoc() *Object {
@@ -122,23 +123,7 @@ func inTimeDate(r *Run, fn *ssa.Function, args []Value) Value {
 		r.fail("panic", "time: missing Location in call to Date", "")
 	}
 	off := r.locOffset(loc)
-	var days *Term
-	if f[0].IsConst() && f[1].IsConst() {
-		days = ts.Const(64, uint64(daysToMonth(signExt(f[0].Val, 64), signExt(f[1].Val, 64))))
-	} else {
-		days = ts.Raw(64, "(verif_days $0 $1)", f[0], f[1])
-		// facts about the real function for ordinary dates (year 1..9999,
-		// month 1..12): 365 days per year at least, 366 at most, and at
-		// least 31 days before any month after January
-		y, m := f[0], f[1]
-		inRange := ts.And(ts.And(ts.SLE(ts.Const(64, 1), y), ts.SLE(y, ts.Const(64, 9999))), ts.And(ts.SLE(ts.Const(64, 1), m), ts.SLE(m, ts.Const(64, 12))))
-		ym1 := ts.Sub(y, ts.Const(64, 1))
-		lo := ts.Mul(ym1, ts.Const(64, 365))
-		lo2 := ts.Add(lo, ts.Const(64, 31))
-		hi := ts.Add(ts.Mul(ym1, ts.Const(64, 366)), ts.Const(64, 366))
-		r.assume(ts.Implies(inRange, ts.And(ts.SLE(lo, days), ts.SLE(days, hi))))
-		r.assume(ts.Implies(ts.And(inRange, ts.SLE(ts.Const(64, 2), m)), ts.SLE(lo2, days)))
-	}
+	days := r.daysBeforeMonth(f[0], f[1])
 	carry, nsec := r.normNsec(f[6])
 	d := ts.Add(days, ts.Sub(f[2], ts.Const(64, 1)))
 	abs := ts.Mul(d, ts.Const(64, 86400))
